@@ -15,7 +15,7 @@ import (
 func init() {
 	Drivers["C03"] = driveC03
 	Levels["C03"] = "fault_enumeration"
-	Rules["C03"] = "one run = one generated document universe (1-5 documents on 2 hosts + urn ids, embedded resources with absolute/relative/urn $id, anchors scoped per resource, every $ref built from its intended target in a randomly chosen syntactic form; 2020-12 or draft-07; BaseURI empty or absolute; Loader nil when nothing remote is needed) checked under 4 map-order schedules. Enumerated per world and schedule: every probe path covering each reachable reference (right marker accepted, two wrong markers rejected); every subset of failing remote documents (<=4 remote docs; else singletons, pairs and 8 random sets); 'fail exactly the k-th loader call' for every k; recovery with a healthy loader after each failure; one planted dangling reference in 1/5 of the worlds; one world in six is relocatable (one host, relative ids and references only) and is additionally resolved - same root tree, caching Loader that hands out the same *Schema values - under its own host, under a mirror host where one document has other markers, and under its own host again. Non-trivial = the world must load >=1 remote document and some probe crosses a document or resource boundary. Distinct = hash(universe text, BaseURI) x order-vector hash."
+	Rules["C03"] = "one run = one generated document universe (1-5 documents on 2 hosts + urn ids, embedded resources with absolute/relative/urn $id, anchors scoped per resource, every $ref built from its intended target in a randomly chosen syntactic form; 2020-12 or draft-07; BaseURI empty or absolute; Loader nil when nothing remote is needed) checked under 4 map-order schedules. Enumerated per world and schedule: every probe path covering each reachable reference (right marker accepted, two wrong markers rejected); every subset of failing remote documents (<=4 remote docs; else singletons, pairs and 8 random sets); 'fail exactly the k-th loader call' for every k; recovery with a healthy loader after each failure; a third of the failing plans return the error together with a non-nil (empty or complete) schema; hops refer in place to leaves directly or through chains of $ref-only alias subschemas, possibly in other documents; one planted dangling reference in 1/5 of the worlds; one world in six is relocatable (one host, relative ids and references only) and is additionally resolved - same root tree, caching Loader that hands out the same *Schema values - under its own host, under a mirror host where one document has other markers, and under its own host again. Non-trivial = the world must load >=1 remote document and some probe crosses a document or resource boundary. Distinct = hash(universe text, BaseURI) x order-vector hash."
 }
 
 var (
